@@ -11,6 +11,9 @@ not invariant (`countTol_not_scale_invariant`).
 Knots: whether a data point that coincides with the query is counted as "below" or is the end of the last, partial segment gives the same
 value (`spreadBody_succ`, `spreadPoint_at_knot`): the spreading pressure is continuous across the knots, and a miscount is harmless only
 AT a knot (`miscount_witness`: one knot strictly below the query left out changes the value).
+
+The loading at the query is an input of the fold (the code reads it through `loading_at`, the data points through `loading`):
+`foreign_lq_witness` — with the number another conversion produces the fold is not the integral of the interpolant (finding S49-C11c).
 -/
 import Mathlib.Analysis.SpecialFunctions.Log.Basic
 import Mathlib.Algebra.Order.Field.Rat
@@ -176,6 +179,17 @@ theorem miscount_witness :
     (1 : ℚ) + seg (1 : ℚ) 1 3 (7/2) (11/10) = 129/40 ∧
     (18/5 : ℚ) ≠ 1 + seg (1 : ℚ) 1 3 (7/2) (11/10) := by
   refine ⟨?_, by norm_num [seg], by norm_num [seg]⟩
+  norm_num [spreadPoint, nBelow, spreadBody, seg, List.range_succ, List.filter]
+
+/-- finding S49-C11c: the loading at the query, `lq`, is an INPUT of the fold — the code reads it through `loading_at` while the data points come
+from `loading` — and `spreadPoint_eq_integral` needs it to be the interpolant of THE SAME data at the query (`interpLin ps ls p = some lq`).
+With the number another conversion produces (here 100 times smaller: a percentage read as a fraction) the fold is not the integral of the
+interpolant: same data and logarithms as in `miscount_witness`, query `3`: `18/5` with `lq = 7/2`, `2907/1000` with `lq = 7/200`. -/
+theorem foreign_lq_witness :
+    spreadPoint (α := ℚ) [1, 2, 4] [1, 3, 4] [7/10, 7/10] 3 (7/2) (2/5) = some (18/5) ∧
+    spreadPoint (α := ℚ) [1, 2, 4] [1, 3, 4] [7/10, 7/10] 3 (7/200) (2/5) = some (2907/1000) ∧
+    (18/5 : ℚ) ≠ 2907/1000 := by
+  refine ⟨?_, ?_, by norm_num⟩ <;>
   norm_num [spreadPoint, nBelow, spreadBody, seg, List.range_succ, List.filter]
 
 /-- a count "up to an absolute tolerance" (`p_k < p - tol` instead of `p_k < p`) -/
